@@ -429,6 +429,20 @@ pub fn run_server_model(cfg: &ScenCfg, out: &mut RunOut) {
                     out.probe("command_during_reopen_wait");
                 }
             }
+            // the planned level change of the paired runs (C20) may fall into the wait as well
+            if let Some((k, lvl)) = cfg.decode.change_at {
+                if k == action {
+                    let now = kernel::now_ns();
+                    if t > now + 1 {
+                        kernel::advance_to(now + (t - now) / 2);
+                    }
+                    let mut fut = Box::pin(rig.handle.set_decode_level(decode_level(lvl)));
+                    let _ = kernel::block_on(fut.as_mut());
+                    out.probe("decode_change_injected");
+                    out.probe("decode_change_during_reopen_wait");
+                }
+            }
+            action += 1;
             // bytes sent while the port is closed are lost on a UART: probe liveness afterwards
             kernel::advance_to(t);
             if !check_opens(&expected_opens, out, "after framing error") {
@@ -463,6 +477,7 @@ pub fn run_server_model(cfg: &ScenCfg, out: &mut RunOut) {
     out.sample = Some(json!({"scenario": "rtu server vs reference model", "units": units.keys().collect::<Vec<_>>(), "decode_level_index": dec_idx,
         "retry_min_ms": retry_min / MS, "frames": samples}));
     out.observable.extend(format!("{:?}", rig.journal.lock().unwrap()).into_bytes());
+    out.observable.extend(format!("{:?}", serial::opens(PATH).iter().map(|o| (o.at, o.ok)).collect::<Vec<_>>()).into_bytes());
     {
         let mut fut = Box::pin(rig.handle.shutdown());
         let _ = kernel::block_on(fut.as_mut());
